@@ -15,6 +15,12 @@ Inductive case :=
 | CDeliver (kind : string) (auth : Z) (g : list (Z * Z)) (signers : list Z) (creator : Z)
            (fields : list (string * Z)) (ext : list Z) (biz : bool)
            (o_ante o_ok : bool) (o_touched : list Z)
+(** a multi-message transaction: (kind, signers, creator, fields, ext, biz) per message, in the
+    order the decorator sees them (messages nested in authz.MsgExec flattened in, the wrapper left
+    out); observed: decorator verdict over the whole tx, whether the whole tx went through, touched *)
+| CTx (auth : Z) (g : list (Z * Z))
+      (msgs : list (string * list Z * Z * list (string * Z) * list Z * bool))
+      (o_ante o_ok : bool) (o_touched : list Z)
 (** decorator only, any message type *)
 | CAnte (kind : string) (g : list (Z * Z)) (signers : list Z) (creator : Z) (o_ante : bool)
 (** shape of the message type as the real codec sees it: 0 = signers resolved from metadata,
@@ -27,7 +33,6 @@ Fixpoint find_spec (kind : string) (l : list msgspec) : option msgspec :=
   | s :: r => if String.eqb (ms_name s) kind then Some s else find_spec kind r
   end.
 
-Definition memz (x : Z) (l : list Z) : bool := existsb (Z.eqb x) l.
 Definition subset (a b : list Z) : bool := forallb (fun x => memz x b) a.
 Definition same_set (a b : list Z) : bool := subset a b && subset b a.
 
@@ -63,6 +68,22 @@ Definition check (c : case) : bool :=
          else negb o_ok && same_set o_touched [])
       end
     end
+  | CTx auth g msgs o_ante o_ok o_touched =>
+    let resolved := map (fun x => let '(kind, signers, creator, fields, ext, biz) := x in
+                                  (find_spec kind Gen.C03.specs, MkMsg signers creator fields ext, biz)) msgs in
+    if negb (forallb (fun x => match fst (fst x) with Some _ => true | None => false end) resolved) then false
+    else
+      let tx := flat_map (fun x => match fst (fst x) with Some sp => [(sp, snd (fst x))] | None => [] end) resolved in
+      let allbiz := forallb (fun x => snd x) resolved in
+      let own := flat_map (fun sm => m_creator (snd sm) :: m_meta_signers (snd sm)) tx in
+      let tg := flat_map (fun sm => targets auth (snd sm) (ms_rows (fst sm))) tx in
+      match deliver_tx Gen.C03.ante_lookup_carried auth g tx empty_state with
+      | RejectedAnte => negb o_ante && negb o_ok && same_set o_touched []
+      | RejectedGuard => o_ante && negb o_ok && same_set o_touched []
+      | Done _ =>
+        o_ante && (if allbiz then o_ok && same_set (minus own o_touched) (minus (nobody :: own) tg)
+                   else negb o_ok && same_set o_touched [])
+      end
   | CAnte kind g signers creator o_ante =>
     match find_spec kind Gen.C03.specs with
     | None => false
